@@ -155,6 +155,17 @@ func drawC08(t *rapid.T) *Case {
 	// held in flight by the controller - what is left behind by a cancelled stream (pooled
 	// objects, queued frames, write results) must not leak into another exchange
 	focus := drawBool(t, "cancelfocus", 12)
+	// aged connection (8%): a handshake timeout is configured and the first client keeps its
+	// connection in use beyond it (HTTP/2: pause between two requests; HTTP/1.1: a first
+	// answer that takes longer) - nothing of the handshake's deadlines may stay on the connection
+	aged := !focus && drawBool(t, "aged", 8)
+	if aged {
+		p.Args = append(p.Args, "-timeout-tls-handshake", "1s")
+		if drawBool(t, "agednowt", 60) {
+			// without a write timeout nothing re-arms the connection's write deadline later on
+			p.Args = append(p.Args, "-timeout-http-write", "0s")
+		}
+	}
 	var metas []*ClientMeta
 	for ci := 0; ci < nc; ci++ {
 		proto := []string{"h2", "h1"}[rapid.IntRange(0, 1).Draw(t, "proto")]
@@ -221,6 +232,13 @@ func drawC08(t *rapid.T) *Case {
 			// response
 			rp := &RespPlan{Status: c08Status[rapid.IntRange(0, len(c08Status)-1).Draw(t, "status")]}
 			rp.Header = drawE2EHeaders(t, "x-resp")
+			if drawBool(t, "hdrwalk", 8) {
+				// a response header block whose encoded size lies around 16384 octets (one
+				// frame's worth): '#' is not shortened by Huffman coding, so the block is
+				// the value's length plus a few dozen octets, and the draw walks it over
+				// the boundary between "fits one HEADERS frame" and "needs a CONTINUATION"
+				rp.Header = [][2]string{{"X-Pad", strings.Repeat("#", 16384-rapid.IntRange(20, 95).Draw(t, "hdrwalklen"))}}
+			}
 			if drawBool(t, "setcookie", 30) {
 				rp.Header = append(rp.Header, [2]string{"Set-Cookie", "s=1; Path=/"}, [2]string{"Set-Cookie", "t=2; HttpOnly"})
 			}
@@ -254,6 +272,9 @@ func drawC08(t *rapid.T) *Case {
 					}
 				}
 			}
+			if aged && ci == 0 && ri == 0 && proto == "h1" {
+				rp.DelayMS = 1700
+			}
 			p.Backend.Resp[tag] = rp
 			rq.Resp = rp
 			aux.Reqs[ci] = append(aux.Reqs[ci], rq)
@@ -275,8 +296,11 @@ func drawC08(t *rapid.T) *Case {
 				if cut < len(fs) {
 					cp.Steps = append(cp.Steps, Step{Kind: "write", Pieces: [][]byte{FramesBytes(fs[cut:]...)}})
 				}
-				if drawBool(t, "sequential", 40) {
+				if (aged && ci == 0 && ri == 0) || drawBool(t, "sequential", 40) {
 					cp.Steps = append(cp.Steps, Step{Kind: "h2await", Streams: []uint32{id}})
+				}
+				if aged && ci == 0 && ri == 0 {
+					cp.Steps = append(cp.Steps, Step{Kind: "sleep", DelayMS: 1700})
 				}
 			} else {
 				withCL := drawBool(t, "withcl", 60) || len(rq.Trailers) == 0 && len(rq.Spec.Body) == 0
@@ -693,5 +717,5 @@ func clientTrailers(w *World, ci, ri int, tag string) map[string][]string {
 
 func init() {
 	register(&CheckDef{ID: "C08", Level: "exploration", Engine: "A", Draw: drawC08,
-		Rule: "1-3 clients (raw-frame HTTP/2 with up to 4 requests in flight, or HTTP/1.1 keep-alive), each request with a drawn method (GET/POST/PUT/DELETE/PATCH/OPTIONS/HEAD), path with percent-escapes and sub-delims, net/url-parseable query (repeated keys, empty values, escapes), 0-6 end-to-end header fields (empty, repeated, 1-6 kB, separators), User-Agent present or not, cookies (split into crumbs on HTTP/2), hop-by-hop and Connection-nominated fields, body of 0 / 1 / boundary / up to 3 MiB bytes sent as DATA frames or chunks of drawn sizes, with or without Content-Length, request trailers; back-end response with drawn status (incl. 204/304/HEAD), header set, body of the same size classes written in drawn pieces with flushes, trailers; -preserve-host on/off, back-end keep-alive on/off, any write scheduler, segmentation in both directions; delivery order by the controller. Oracle: comparator in both directions (names case-insensitive, values / multiplicity / order exact, hop-by-hop set removed, Host rule, bodies byte-exact, trailers). Non-trivial: at least one request reached the back-end. Distinct: distinct controller action-label sequences."})
+		Rule: "1-3 clients (raw-frame HTTP/2 with up to 4 requests in flight, or HTTP/1.1 keep-alive), each request with a drawn method (GET/POST/PUT/DELETE/PATCH/OPTIONS/HEAD), path with percent-escapes and sub-delims, net/url-parseable query (repeated keys, empty values, escapes), 0-6 end-to-end header fields (empty, repeated, 1-6 kB, separators), User-Agent present or not, cookies (split into crumbs on HTTP/2), hop-by-hop and Connection-nominated fields, body of 0 / 1 / boundary / up to 3 MiB bytes sent as DATA frames or chunks of drawn sizes, with or without Content-Length, request trailers; back-end response with drawn status (incl. 204/304/HEAD), header set, body of the same size classes written in drawn pieces with flushes, trailers (announced, unannounced, both, two-valued); 30%: a further HTTP/2 client that cancels large downloads part-way; 30%: frame writes held in flight by the controller (write fence), 12%: cancel focus (four cancelled downloads next to streamed multi-frame downloads, all writes fenced); -preserve-host on/off, back-end keep-alive on/off, any write scheduler, segmentation in both directions; delivery order by the controller. Oracle: comparator in both directions (names case-insensitive, values / multiplicity / order exact, hop-by-hop set removed, Host rule, bodies byte-exact, trailers). Non-trivial: at least one request reached the back-end. Distinct: distinct controller action-label sequences."})
 }
